@@ -118,8 +118,12 @@ void NiString::Read(NiIStream& stream, const int szSize) {
 
 void NiString::Write(NiOStream& stream, const int szSize) {
 	if (szSize == 1) {
+		// The length byte also counts the terminator of a null-terminated string
+		const size_t maxLength = nullOutput ? 254 : 255;
+		if (str.length() > maxLength)
+			str.resize(maxLength);
+
 		auto sz = uint8_t(str.length());
-		str.resize(sz);
 
 		if (nullOutput)
 			sz += 1;
